@@ -1,1 +1,2 @@
 -- root of the helper-lemma library
+import TjdLemmas.C14Lemmas
